@@ -97,6 +97,57 @@ def _cvc5(smt2):
         return "unknown", str(e)
 
 
+def _child(task, conn):
+    try:
+        conn.send(_solve(task))
+    except BaseException as e:  # noqa: BLE001
+        try:
+            conn.send((task[0], "unknown", "z3", 0.0, None, f"solver process error: {type(e).__name__}: {str(e)[:200]}"))
+        except Exception:
+            pass
+    finally:
+        conn.close()
+
+
+def _run_guarded(tasks, procs, timeout_ms):
+    """one forked process per obligation, at most `procs` at a time, each killed when it overruns a hard deadline: z3 does not always
+    honour its own timeout (seen with lambdas / strings under quantifiers) and a hung solver must never hang a check.  A killed task is `unknown`."""
+    ctx = mp.get_context("fork")
+    # portfolio of four z3 configurations + cvc5, plus the focused first attempt: generous hard limit
+    hard = (timeout_ms / 1000.0) * 2.2 + CVC5_TIMEOUT_MS / 1000.0 + 20.0
+    pending = list(tasks)
+    running = {}  # conn -> (proc, task, t0)
+    results = []
+    from multiprocessing.connection import wait
+
+    while pending or running:
+        while pending and len(running) < procs:
+            task = pending.pop(0)
+            parent, child = ctx.Pipe(duplex=False)
+            pr = ctx.Process(target=_child, args=(task, child), daemon=True)
+            pr.start()
+            child.close()
+            running[parent] = (pr, task, time.time())
+        ready = wait(list(running), timeout=1.0)
+        for conn in ready:
+            pr, task, t0 = running.pop(conn)
+            try:
+                results.append(conn.recv())
+            except (EOFError, OSError):
+                results.append((task[0], "unknown", "z3", time.time() - t0, None, "solver process died"))
+            conn.close()
+            pr.join(timeout=5)
+        now = time.time()
+        for conn, (pr, task, t0) in list(running.items()):
+            if now - t0 > hard:
+                pr.kill()
+                pr.join(timeout=5)
+                running.pop(conn)
+                conn.close()
+                results.append((task[0], "unknown", "z3", now - t0, None, f"hard timeout after {hard:.0f}s (the solver ignored its own limit)"))
+    return results
+
+
 def discharge(obligations, procs=None, want_model=True, timeout_ms=None):
     """fills ob.result = dict(status, backend, seconds, model, reason) for each obligation"""
     procs = procs or min(16, os.cpu_count() or 4)
@@ -106,12 +157,7 @@ def discharge(obligations, procs=None, want_model=True, timeout_ms=None):
         tasks.append((k, ob.smt2(), want_model, timeout_ms, ob.smt2(focused=True) if getattr(ob, "focus_hyps", None) is not None else None))
     if not tasks:
         return
-    if procs == 1 or len(tasks) == 1:
-        results = [_solve(t) for t in tasks]
-    else:
-        ctx = mp.get_context("fork")
-        with ctx.Pool(min(procs, len(tasks))) as pool:
-            results = pool.map(_solve, tasks, chunksize=1)
+    results = _run_guarded(tasks, min(procs, len(tasks)), timeout_ms)
     for idx, res, backend, secs, model, reason in results:
         obligations[idx].result = {
             "status": {"unsat": "discharged", "sat": "failed", "unknown": "undecided"}[res],
